@@ -49,25 +49,25 @@ def binRespond : REv → Bytes
   | .noop o => okHeader Gen.binprot_OpcodeNoop 0 0 0 o
   | .quit o q => if q then [] else okHeader Gen.binprot_OpcodeQuit 0 0 0 o
   | .version o =>
-    okHeader Gen.binprot_OpcodeVersion 0 0 Gen.common_VersionString.utf8ByteSize o ++ Bytes.ofString Gen.common_VersionString
+    okHeader Gen.binprot_OpcodeVersion 0 0 Gen.common_VersionString_bytes.length o ++ Gen.common_VersionString_bytes
   | .stat o =>
-    okHeader Gen.binprot_OpcodeStat 7 0 (7 + Gen.common_Version.utf8ByteSize) o ++ Bytes.ofString ("version" ++ Gen.common_Version) ++
+    okHeader Gen.binprot_OpcodeStat 7 0 (7 + Gen.common_Version_bytes.length) o ++ ([118, 101, 114, 115, 105, 111, 110] ++ Gen.common_Version_bytes) ++
     okHeader Gen.binprot_OpcodeStat 0 0 0 o
   | .error o rt e q => binError o rt e q
 
 def crlf : Bytes := [13, 10]
 
-def textLine (s : String) : Bytes := Bytes.ofString s ++ crlf
+def textLine (s : Bytes) : Bytes := s ++ crlf
 
-def textReply (name : String) : String :=
+def textReply (name : String) : Bytes :=
   match Gen.textReplies.find? (fun p => p.1 == name) with
-  | some (_, s) => s
-  | none => ""
+  | some (_, _, s) => s
+  | none => []
 
 /-- `TextResponder.Error` -/
 def textError (e : Err) : Bytes :=
   match Gen.textErrorTable.find? (fun p => p.1 == e.name) with
-  | some (_, line) => if line == "" then textLine e.message else textLine line
+  | some (_, line, bytes) => if line == "" then textLine e.message else textLine bytes
   | none => textLine e.message
 
 def storeName : SetKind → String
@@ -79,14 +79,14 @@ def textRespond : REv → Option Bytes
   | .stored k _ _ => some (textLine (textReply (storeName k)))
   | .get r =>
     if r.miss then some []
-    else some (Bytes.ofString "VALUE " ++ r.key ++ [32] ++ Bytes.decDigits r.flags ++ [32] ++ Bytes.decDigits r.data.length ++ crlf ++ r.data ++ crlf)
+    else some ([86, 65, 76, 85, 69, 32] ++ r.key ++ [32] ++ Bytes.decDigits r.flags ++ [32] ++ Bytes.decDigits r.data.length ++ crlf ++ r.data ++ crlf)
   | .getEnd _ _ => some (textLine (textReply "GetEnd"))
   | .getE _ => none
   | .gat _ => none
   | .deleted _ => some (textLine (textReply "Delete"))
   | .touched _ => some (textLine (textReply "Touch"))
   | .noop _ => some (textLine (textReply "Noop"))
-  | .quit _ q => if q then some [] else some (textLine "Bye")
+  | .quit _ q => if q then some [] else some (textLine [66, 121, 101])
   | .version _ => some (textLine (textReply "Version"))
   | .stat _ => some (textLine (textReply "Stat"))
   | .error _ _ e _ => some (textError e)
